@@ -223,6 +223,26 @@ claim('C13', 'translation_validation',
       'symbolic execution of the real pattern streams + SMT equality against a denotational reference',
       'DESIGN.md 3/C13')
 
+claim('C10', 'model_checking',
+      'Product of two symbolic executions of ONE program text (11 programs quick / 18 thorough: two routines with '
+      'every delta symbolic, single-routine time arithmetic with tempo / etempo / beats re-basing, and discrete '
+      'features -- seeded random draws with symbolic arguments, Condition wait/signal, pause/resume, stop, child '
+      'routine, re-seeding -- on SystemClock and TempoClock): the NRT process explores the real ClockScheduler and '
+      'emits per path an SMT-LIB summary (path condition + every logged value + every (time, bundle) of '
+      'main.process().list); the RT process explores the real clock run loops in the co-simulation with arbitrary '
+      'wake-up latency, decodes the datagrams captured at OscInterface._send with the independent OSC reader, and '
+      'for every NRT summary overlapping the RT path condition (model-guided search, ending in an unsat = coverage '
+      'proof) z3 proves: same steps in the same order, equal logged values (logical seconds / beats relative to '
+      'the start, drawn values), same bundles with |timetag - (start + NRT time) * 2^32| <= 1. Determinism: per '
+      'NRT path the program is run twice from fresh state (logs, score list and raw score entry by entry equal) '
+      'and once more with every other routine drawing extra values (the seeded routine\'s stream is unchanged).',
+      _TB + '; one clock per program (cross-clock order is timing dependent in RT); quick tier uses zero wake-up '
+      'latency for the discrete-feature programs, arbitrary latency for the all-symbolic ones; RT-side '
+      'counterexamples are replayed concretely in the co-simulation (real clock code, recorded instants) against a '
+      'concrete NRT run in a child process.',
+      'symbolic execution of both modes + SMT equivalence of path summaries (LRA/LIA with to_int), co-simulated RT',
+      'DESIGN.md 3/C10')
+
 claim('C11', 'model_checking',
       'Bounded model checking of the real Routine against an explicit reference automaton: every history of 3 (quick) / '
       '4 external operations over next, send, pause, resume, stop, reset, with the body\'s behaviour at every step chosen '
